@@ -408,6 +408,14 @@ def make_main(plan: dict):
         _ids(cfg, ids0)
         linger = 2 * plan_duration(plan) + 1.0
         rounds = 2 if plan.get("twice") else 1
+        import warnings as _warnings
+
+        from asphalt.core import SignalQueueFull
+
+        _wctx = _warnings.catch_warnings(record=True)
+        wlist = _wctx.__enter__()
+        _warnings.simplefilter("always", SignalQueueFull)
+        sim.user["wlist"] = wlist
         for rnd in range(rounds):
             h.round = rnd
             try:
@@ -488,6 +496,10 @@ def make_main(plan: dict):
                     raise
             else:
                 sim.log("ctx_exit", exc=None, round=rnd)
+        sizes = sorted({str(w.message).split("(")[1].split(")")[0] for w in wlist if "Queue full (" in str(w.message)})
+        if sizes:
+            sim.log("queue_overflow", sizes=sizes, n=len(wlist))
+        _wctx.__exit__(None, None, None)
 
     return main
 
@@ -675,7 +687,7 @@ def oracle(sim: Sim, plan: dict) -> list[dict]:
         return V
     if sim.deadlock:
         for p in ("C05", "C06", "C07", "C14"):
-            v(f"{p}.deadlock", "deadlock" if not (p == "C06" and _lost_key(plan) == "burst>50") else "burst>50", "run deadlocked: a component waited forever although the plan's dependencies are acyclic")
+            v(f"{p}.deadlock", "deadlock" if not (p == "C06" and (_lost_key(plan) == "burst>50" or _overflow50(sim))) else "burst>50", "run deadlocked: a component waited forever although the plan's dependencies are acyclic")
         return V
 
     tree = plan["tree"]
@@ -1020,7 +1032,8 @@ def oracle(sim: Sim, plan: dict) -> list[dict]:
                     v("C02.component_parent", "snapshot", f"Context() created in {d['phase']}() of {d['path']} does not see what the calling context holds: {d['diff']}")
                 if not d["inside"] or not d["restored"]:
                     v("C12.current", "component_phase", f"current_context() around a nested context in {d['path']}: {d}")
-    if _lost_key(plan) == "burst>50":
+    overflow = [r for r in sim.trace if r[4] == "queue_overflow"]
+    if _lost_key(plan) == "burst>50" or (overflow and all(r[5]["sizes"] == ["50"] for r in overflow)):
         # plans with a burst of more than 50 decoys in one step exercise the overflow of a
         # waiting component's 50-slot queue (known finding): lost, late and never-delivered
         # wake-ups of such plans are keyed so that exactly this cause can be recognised
@@ -1028,6 +1041,12 @@ def oracle(sim: Sim, plan: dict) -> list[dict]:
             if x["rule"] in ("C06.lost_wakeup", "C06.late_wakeup", "C06.deadlock"):
                 x["key"] = "burst>50"
     return V
+
+
+def _overflow50(sim: Sim) -> bool:
+    wl = sim.user.get("wlist") or []
+    sizes = {str(w.message).split("(")[1].split(")")[0] for w in wl if "Queue full (" in str(w.message)}
+    return sizes == {"50"}
 
 
 def _lost_key(plan: dict) -> str:
@@ -1256,7 +1275,9 @@ class G:
                     acts.append(["childctx"])
                 elif avail or here:
                     ti, nm, _f, _d = rng.choice(avail + here)
-                    nmax = 60 if (self.tier == "thorough" and self.prop == "C06") else 8
+                    # only C06's thorough tier may overflow a waiter's 50-slot queue (known
+                    # finding burst>50); everywhere else the total stays far below it
+                    nmax = 60 if (self.tier == "thorough" and self.prop == "C06") else (8 if self.prop == "C06" else 4)
                     nb = rng.randint(1, nmax)
                     rb = rng.random()
                     if rb < 0.4:
